@@ -198,7 +198,11 @@ func cmdCheck(args []string) int {
 	if code != 0 {
 		return code
 	}
-	fmt.Printf("OK property=%s tier=%s obligations=%v discharged=%v wall=%.1fs\n", id, tier, cov["obligations"], cov["discharged"], ev.WallS)
+	extra := ""
+	if b, ok := cov["bounded_stand_ins_this_run"].([]string); ok && len(b) > 0 {
+		extra = fmt.Sprintf(" functions-checked-bounded-not-proved=%d", len(b))
+	}
+	fmt.Printf("OK property=%s tier=%s obligations=%v discharged=%v%s wall=%.1fs\n", id, tier, cov["obligations"], cov["discharged"], extra, ev.WallS)
 	return 0
 }
 
@@ -242,6 +246,7 @@ func (c *checkCtx) runContracts(cov map[string]interface{}) int {
 	var obls []*Obligation
 	var funcs []map[string]interface{}
 	var unsupportedAll []string
+	var boundedAll []string
 	trusted := map[string]bool{}
 	var orphans []string
 	for _, b := range ld.bindErrors {
@@ -290,6 +295,41 @@ func (c *checkCtx) runContracts(cov map[string]interface{}) int {
 			continue
 		}
 		rep := ld.eng.verifyFunc(fn, fc)
+		var boundedNote map[string]interface{}
+		if fc.boundedEligible() {
+			// the loop contracts of a terminating computation loop no longer fit the code (a rewritten loop): the proof of
+			// this function is lost, whatever its other obligations say.  Its contract is then CHECKED, not proved, by
+			// unrolling up to a bound; a refutation found that way is a violation with a concrete input, none is a pass
+			// labelled bounded.  Undecided answers leave the lost proof to be reported as it is.
+			if lost := loopProofLost(rep, timeout); len(lost) > 0 {
+				k := 6
+				if c.tier == "thorough" {
+					k = 12
+				}
+				rep2 := ld.eng.verifyFuncBounded(fn, fc, k)
+				if len(rep2.Unsupported) == 0 && rep2.Completed > 0 && len(rep2.Obligations) > 0 {
+					vs2 := discharge(rep2.Obligations, dischargeOpts{timeoutS: timeout, all: false, workers: (runtime.NumCPU() + 1) / 2})
+					refuted, undecided := 0, 0
+					for _, ns := range summarize(vs2) {
+						if len(ns.Failed) > 0 {
+							refuted++
+						} else if len(ns.Unknown) > 0 {
+							undecided++
+						}
+					}
+					if undecided == 0 {
+						rep = rep2
+						boundedNote = map[string]interface{}{"bound_symbolic_iterations_per_loop": k, "proof_lost_at": lost,
+							"paths_within_bound": rep2.Completed, "paths_cut_at_bound": rep2.Ends["bound"], "refuted_obligations": refuted}
+						if refuted == 0 {
+							fmt.Printf("BOUNDED property=%s function=%s loop contract no longer fits (%s); contract checked by unrolling, at most %d iterations per loop, %d paths: holds within the bound (not a proof)\n",
+								c.id, rep.Name, strings.Join(lost, ", "), k, rep2.Completed)
+							boundedAll = append(boundedAll, fmt.Sprintf("%s: loop contract no longer fits (%s); bounded stand-in, at most %d iterations per loop", rep.Name, strings.Join(lost, ", "), k))
+						}
+					}
+				}
+			}
+		}
 		var res []*regexp.Regexp
 		for _, p := range sel.Posts {
 			res = append(res, regexp.MustCompile(p))
@@ -341,6 +381,10 @@ func (c *checkCtx) runContracts(cov map[string]interface{}) int {
 		}
 		if len(rep.Unmodelled) > 0 {
 			fm["unmodelled_calls"] = rep.Unmodelled
+		}
+		if boundedNote != nil {
+			fm["bounded_stand_in"] = boundedNote
+			fm["status"] = "bounded (loop contract no longer fits the code; NOT proved)"
 		}
 		if len(fc.Assumes) > 0 {
 			fm["assumes"] = fc.Assumes
@@ -440,6 +484,9 @@ func (c *checkCtx) runContracts(cov map[string]interface{}) int {
 	cov["solver_time_s"] = solverTime
 	cov["functions_under_contract"] = funcs
 	cov["trusted_base"] = tb
+	if len(boundedAll) > 0 {
+		cov["bounded_stand_ins_this_run"] = boundedAll
+	}
 	if len(orphans) > 0 {
 		cov["unbound_contracts_outside_this_property"] = orphans
 	}
@@ -463,6 +510,39 @@ func asInt(v interface{}) int {
 		return i
 	}
 	return 0
+}
+
+// loopProofLost names the loop obligations of a function that fail (or cannot be generated): the loop contract does
+// not fit the loop any more.
+func loopProofLost(rep *FuncReport, timeout int) []string {
+	seen := map[string]bool{}
+	var lost []string
+	add := func(n string) {
+		if !seen[n] {
+			seen[n] = true
+			lost = append(lost, n)
+		}
+	}
+	for _, u := range rep.Unsupported {
+		if strings.Contains(u, "needs an invariant") || strings.Contains(u, "loop bind") || strings.Contains(u, "slice loop variable") {
+			add("unsupported: " + firstField(u))
+		}
+	}
+	var loopObls []*Obligation
+	for _, o := range rep.Obligations {
+		if o.Kind == "loop" || strings.Contains(o.Name, "#bind:loop") || (o.Kind == "frame" && strings.Contains(o.Name, "#loop")) {
+			loopObls = append(loopObls, o)
+		}
+	}
+	if len(loopObls) > 0 {
+		for _, v := range discharge(loopObls, dischargeOpts{timeoutS: timeout, workers: (runtime.NumCPU() + 1) / 2}) {
+			if v.Status == "failed" || v.Status == "unknown" {
+				add(v.O.Name[strings.Index(v.O.Name, "#")+1:])
+			}
+		}
+	}
+	sort.Strings(lost)
+	return lost
 }
 
 func firstField(s string) string {
